@@ -23,6 +23,15 @@ values (zeros, ties), and handed to the model as data, so nothing depends on the
                  the agent's OWN mask forbids), env-defined actions for some (agent, env row) pairs with NaN / None
                  placeholders, 1..3 env rows and the non-vectorised forms; final action dicts diffed exactly
 
+  suite reuse    HISTORIES of get_action calls on one agent whose inputs are RE-USED OBJECTS rewritten in place between calls (one
+                 pre-allocated mask buffer of dtype int8 / int64 / float32 / bool, observation buffers of every family, one
+                 `infos` dict with its nested per-agent dicts, mask and env-defined-action arrays) for every algorithm x action
+                 kind, one-hot masks that move every step and random masks, batched and unbatched, training flag fixed or
+                 alternating: (a) the legality oracle on every step against the CURRENT mask values, (b) step by step equal to
+                 the same history on a twin agent (same constructor seed, same per-call seeds) that receives a fresh deep copy
+                 of every input (the result of a call depends only on the values passed to it and on its draws), (c) get_action
+                 leaves the caller's mask / observation / infos objects as it found them
+
 Oracle (independent of Lean): batch shape and `action_space.contains` (per row, cast to the space's
 dtype as the training loops hand rows to `env.step`) for every algorithm x action kind x observation
 family with the *real* networks: training flag on/off, exploration noise on/off, eps in {0, 1/2, 1},
@@ -2311,6 +2320,375 @@ def run_sweep(chk: Check, cfgs, sink=None) -> int:
     return flagged
 
 
+# ============================================================================= reuse dimension (aliased, in-place rewritten inputs)
+#: An environment (or a vectorising wrapper) may keep ONE pre-allocated observation buffer, ONE mask buffer and ONE
+#: `infos` dict and rewrite them in place before every step.  The action returned by a call of get_action must depend
+#: only on the VALUES handed to that call (plus the random draws of that call): a history of calls on aliased buffers
+#: is compared, step by step, with the same history on a twin agent (same constructor seed) that gets a fresh copy of
+#: every input on every call; every step is also judged by the legality oracle against the CURRENT mask values; and
+#: get_action must leave the caller's objects as it found them.
+REUSE_DTYPES = ["int8", "int64", "float32", "bool"]
+REUSE_PARTS = ["mask", "obs", "infos", "envdef"]
+_REUSE_KEY = {"action_mask": "mask", "env_defined_actions": "envdef"}      # which part an `infos` entry belongs to
+
+
+def _np_equal(a, b) -> bool:
+    """same structure, dtypes and values (NaN == NaN)"""
+    if isinstance(a, dict) or isinstance(b, dict):
+        return isinstance(a, dict) and isinstance(b, dict) and list(a) == list(b) and all(_np_equal(a[k], b[k]) for k in a)
+    if isinstance(a, (tuple, list)) or isinstance(b, (tuple, list)):
+        return type(a) is type(b) and len(a) == len(b) and all(_np_equal(x, y) for x, y in zip(a, b))
+    if a is None or b is None:
+        return a is None and b is None
+    if isinstance(a, torch.Tensor) or isinstance(b, torch.Tensor):
+        return isinstance(a, torch.Tensor) and isinstance(b, torch.Tensor) and a.dtype == b.dtype and \
+            _np_equal(a.detach().cpu().numpy(), b.detach().cpu().numpy())
+    x, y = np.asarray(a), np.asarray(b)
+    if x.shape != y.shape or x.dtype != y.dtype:
+        return False
+    return bool(np.array_equal(x, y, equal_nan=(x.dtype.kind in "fc")))
+
+
+def _rewrite(dst, src, alias: bool):
+    """what the environment hands out for the next step: `dst` rewritten in place with the values of `src` (same object,
+    same nested objects) when `alias`, else a fresh deep copy of `src`"""
+    if not alias or dst is None:
+        return copy.deepcopy(src)
+    if isinstance(dst, np.ndarray) and isinstance(src, np.ndarray) and dst.shape == src.shape and dst.dtype == src.dtype:
+        dst[...] = src
+        return dst
+    if isinstance(dst, dict) and isinstance(src, dict):
+        for k in [k for k in dst if k not in src]:
+            del dst[k]
+        for k, v in src.items():
+            dst[k] = _rewrite(dst.get(k), v, True)
+        if list(dst) != list(src):                      # keep the key order of the values of this step
+            items = [(k, dst[k]) for k in src]
+            dst.clear()
+            dst.update(items)
+        return dst
+    if isinstance(dst, tuple) and isinstance(src, tuple) and len(dst) == len(src):
+        return tuple(_rewrite(a, b, True) for a, b in zip(dst, src))
+    return copy.deepcopy(src)
+
+
+def reuse_mask(space, rng: random.Random, B: int, prev, style: str):
+    """(B, n) 0/1 rows with at least one legal action per sub-distribution; every row differs from the previous step's row;
+    style `onehot`: exactly one legal action per sub-distribution (a stale mask then certainly shows)"""
+    from gymnasium import spaces
+    if isinstance(space, spaces.Discrete):
+        parts = [int(space.n)]
+    elif isinstance(space, spaces.MultiDiscrete):
+        parts = [int(k) for k in space.nvec]
+    else:
+        parts = [int(space.n)]
+    binary = isinstance(space, spaces.MultiBinary)
+    rows = []
+    for b in range(B):
+        for _ in range(50):
+            row = []
+            for k in parts:
+                if style == "onehot" and not binary:
+                    j = rng.randrange(k)
+                    row += [1 if i == j else 0 for i in range(k)]
+                else:
+                    row += rng.choice(all_masks(k) if binary else all_masks(k)[1:])
+            if prev is None or list(prev[b]) != row or (len(row) == 1 and not binary):
+                break
+        rows.append(row)
+    return rows
+
+
+def reuse_values(agent, cfg, t: int, prev):
+    """the VALUES of step t of the history: {"obs", "mask" (single-agent) | "infos" (multi-agent), "legal": rows per agent}"""
+    ag = _agents()
+    algo, kind, fam = cfg["algo"], cfg["kind"], cfg["family"]
+    B = 1 if cfg["single"] else cfg["B"]
+    rng = random.Random(cfg["seed"] * 1009 + t)
+    dt = np.dtype(cfg["mask_dtype"])
+    style = cfg.get("style", "onehot")
+    v = {"rows": {}, "envdef": {}}
+
+    def as_mask(rows):
+        arr = np.array(rows, dtype=np.int64).astype(dt)
+        return arr[0] if cfg["single"] else arr
+
+    if ag.is_bandit(algo):
+        v["obs"] = ag.sample_obs(agent, algo, fam, seed=rng.randrange(1 << 30))
+        if cfg["mask"]:
+            rows = reuse_mask(agent.action_space, rng, 1, prev and prev["rows"].get(None), style)
+            v["rows"][None] = rows
+            v["mask"] = np.array(rows[0], dtype=np.int64).astype(dt)
+        else:
+            v["mask"] = None
+        return v
+    v["obs"] = sample_obs(agent, algo, B, cfg["single"], rng.randrange(1 << 30))
+    if not ag.is_multi_agent(algo):
+        if cfg["mask"] and kind != "box" and algo not in ("DDPG", "TD3"):
+            rows = reuse_mask(agent.action_space, rng, B, prev and prev["rows"].get(None), style)
+            v["rows"][None] = rows
+            v["mask"] = as_mask(rows)
+        else:
+            v["mask"] = None
+        return v
+    infos = {aid: {} for aid in agent.agent_ids}
+    if cfg["mask"] and kind != "box" and (algo == "IPPO" or kind == "discrete"):
+        for aid in agent.agent_ids:
+            rows = reuse_mask(agent.action_space[aid], rng, B, prev and prev["rows"].get(aid), style)
+            v["rows"][aid] = rows
+            infos[aid]["action_mask"] = as_mask(rows)
+    if cfg.get("env_defined") and kind in ("discrete", "box"):
+        for aid in agent.agent_ids:
+            sp = agent.action_space[aid]
+            if kind == "discrete":
+                vals = [float(rng.randrange(int(sp.n))) if rng.random() < 0.5 else np.nan for _ in range(B)]
+                infos[aid]["env_defined_actions"] = (None if np.isnan(vals[0]) else int(vals[0])) if cfg["single"] else np.array(vals)
+            else:
+                srng = np.random.default_rng(rng.randrange(1 << 30))
+                vals = [_agents()._sample_space(sp, srng, None).astype(np.float64) if rng.random() < 0.5
+                        else np.full(sp.shape, np.nan) for _ in range(B)]
+                infos[aid]["env_defined_actions"] = (None if np.isnan(vals[0]).all() else vals[0]) if cfg["single"] \
+                    else np.array(vals, dtype=np.float64)
+            v["envdef"][aid] = vals
+    for aid in agent.agent_ids:
+        infos[aid]["step_count"] = t
+    v["infos"] = infos
+    return v
+
+
+def reuse_call(agent, cfg, obs, mask, infos, t: int):
+    """one call of get_action of step t -> the action(s) as numpy (multi-agent: {agent: array})"""
+    ag = _agents()
+    algo, kind = cfg["algo"], cfg["kind"]
+    train = cfg["training"] if cfg.get("flip") is None else bool((t + cfg["flip"]) % 2)
+    seed_all(cfg["seed"] + 7919 * t)
+    if ag.is_bandit(algo):
+        return np.asarray(agent.get_action(obs, action_mask=mask))
+    if algo in ("DQN", "CQN"):
+        return np.asarray(agent.get_action(obs, epsilon=cfg["eps"], action_mask=mask))
+    if algo == "RainbowDQN":
+        return np.asarray(agent.get_action(obs, action_mask=mask, training=train))
+    if algo in ("DDPG", "TD3"):
+        return np.asarray(agent.get_action(obs, training=train))
+    if algo in ("PPO", "IPPO"):
+        agent.set_training_mode(train)
+        try:
+            out = agent.get_action(obs, action_mask=mask)[0] if algo == "PPO" else agent.get_action(obs, infos=infos)[0]
+        finally:
+            agent.set_training_mode(True)
+        return np.asarray(out) if algo == "PPO" else {a: np.asarray(x) for a, x in out.items()}
+    cont, disc = agent.get_action(obs, training=train, infos=infos)
+    return {a: np.asarray(x) for a, x in (disc if kind == "discrete" else cont).items()}
+
+
+def reuse_one(cfg):
+    """-> (problems, tags): the aliased history against the fresh-copy history on a twin agent, the legality oracle per
+    step on the aliased history, and `the caller's objects are not modified` on both"""
+    ag = _agents()
+    algo, kind, fam = cfg["algo"], cfg["kind"], cfg["family"]
+    parts = set(cfg.get("reuse", REUSE_PARTS))
+    tags = [f"reuse-{algo}", f"kind-{kind}", f"obs-{fam}", f"maskdtype-{cfg['mask_dtype']}"] + [f"alias-{p}" for p in sorted(parts)]
+    problems: list = []
+    B = 1 if cfg["single"] else cfg["B"]
+
+    def make():
+        return mk_agent(algo, fam, sweep_spaces(algo, kind, random.Random(cfg.get("space_seed", 0))), seed=cfg.get("space_seed", 0))
+    twin_a, twin_f = make(), make()
+    ma = ag.is_multi_agent(algo)
+    buf = {"obs": None, "mask": None, "infos": None}
+    prev, prev_rows = None, {}
+    label = f"{algo} {kind} obs={fam} mask dtype {cfg['mask_dtype']}"
+    for t in range(cfg["steps"]):
+        v = reuse_values(twin_a, cfg, t, prev)
+        prev = v
+        # ---- the aliased history: every input named in `reuse` is the same object as on the previous step
+        obs_a = _rewrite(buf["obs"], v["obs"], "obs" in parts)
+        mask_a = _rewrite(buf["mask"], v.get("mask"), "mask" in parts)
+        if ma:
+            if buf["infos"] is None:
+                infos_a = copy.deepcopy(v["infos"])
+            else:
+                old = buf["infos"]
+                infos_a = old if "infos" in parts else {aid: {} for aid in v["infos"]}
+                for aid, ent in v["infos"].items():
+                    inner = infos_a[aid]
+                    for k in [k for k in inner if k not in ent]:
+                        del inner[k]
+                    for k, x in ent.items():
+                        inner[k] = _rewrite(old[aid].get(k), x, _REUSE_KEY.get(k, "infos") in parts)
+        else:
+            infos_a = None
+        buf = {"obs": obs_a, "mask": mask_a, "infos": infos_a}
+        if not (_np_equal(obs_a, v["obs"]) and _np_equal(mask_a, v.get("mask")) and (not ma or _np_equal(infos_a, v["infos"]))):
+            raise InfraError("C14 reuse suite: the in-place rewritten buffers do not hold the values of the step")
+        try:
+            out_a = reuse_call(twin_a, cfg, obs_a, mask_a, infos_a, t)
+        except InfraError:
+            raise
+        except Exception as e:
+            problems.append(f"{label}, step {t} on re-used input objects: get_action raised {type(e).__name__}: {str(e)[:200]}")
+            break
+        for name, got, want in (("observation", obs_a, v["obs"]), ("action mask", mask_a, v.get("mask")),
+                                ("infos", infos_a, v.get("infos") if ma else None)):
+            if not _np_equal(got, want):
+                problems.append(f"{label}, step {t}: get_action modified the caller's {name} object "
+                                f"(passed {_brief(want)}, afterwards {_brief(got)})")
+        # ---- the same values as fresh copies on the twin agent
+        obs_f, mask_f, infos_f = copy.deepcopy(v["obs"]), copy.deepcopy(v.get("mask")), copy.deepcopy(v.get("infos"))
+        try:
+            out_f = reuse_call(twin_f, cfg, obs_f, mask_f, infos_f, t)
+        except InfraError:
+            raise
+        except Exception as e:
+            problems.append(f"{label}, step {t} on fresh inputs: get_action raised {type(e).__name__}: {str(e)[:200]}")
+            break
+        # ---- legality of the aliased history against the CURRENT values
+        for aid in (twin_a.agent_ids if ma else [None]):
+            space = twin_a.action_space[aid] if ma else twin_a.action_space
+            o = np.asarray(out_a[aid] if ma else out_a)
+            who = f"{label}{'' if aid is None else ' ' + aid}, step {t} (inputs are the step-{max(t - 1, 0)} objects rewritten in place)"
+            if ag.is_bandit(algo):
+                if o.ndim != 0 or not 0 <= int(o) < int(twin_a.action_dim):
+                    problems.append(f"{who}: arm {o.tolist()!r} outside range({int(twin_a.action_dim)})")
+                elif v["rows"].get(None) is not None and not v["rows"][None][0][int(o)]:
+                    problems.append(f"{who}: masked arm {int(o)} chosen (current mask {v['rows'][None][0]})")
+                continue
+            if o.shape[:1] != (B,):
+                problems.append(f"{who}: batch of {B} observation(s) -> action shape {o.shape}")
+                continue
+            pg_train_box = algo in ("PPO", "IPPO") and kind == "box"      # judged in evaluation mode by the other suites
+            rows = v["rows"].get(aid)
+            env = v["envdef"].get(aid)
+            for b in range(B):
+                if env is not None and not np.all(np.isnan(np.asarray(env[b], dtype=np.float64))):
+                    e = np.asarray(env[b], dtype=np.float64).reshape(-1)
+                    g = np.asarray(o[b], dtype=np.float64).reshape(-1)
+                    if g.shape != e.shape or not np.all(np.isnan(e) | (g == e.astype(np.float32))):
+                        problems.append(f"{who} env {b}: current env-defined action {e.tolist()} not returned (got {g.tolist()})")
+                    continue
+                if pg_train_box:
+                    continue
+                if not legal(space, o[b]):
+                    problems.append(f"{who} row {b}: {np.asarray(o[b]).tolist()} is not in {space}")
+                elif rows is not None and env is None and not mask_ok(space, rows[b], o[b]):
+                    problems.append(f"{who} row {b}: action {np.asarray(o[b]).tolist()} is masked by the CURRENT mask {rows[b]}"
+                                    + (f" (previous step's mask {prev_rows[aid][b]})" if t and aid in prev_rows else ""))
+        prev_rows = {aid: r for aid, r in v["rows"].items()}
+        # ---- value-only dependence
+        if not _np_equal(out_a, out_f) and not problems:
+            problems.append(f"{label}, step {t}: the action for re-used input objects rewritten in place "
+                            f"({_brief(out_a)}) differs from the action of the same history with a fresh copy of every input "
+                            f"({_brief(out_f)}); same values, same seeds")
+        for name, got, want in (("observation", obs_f, v["obs"]), ("action mask", mask_f, v.get("mask")),
+                                ("infos", infos_f, v.get("infos") if ma else None)):
+            if not _np_equal(got, want) and not any("modified the caller" in p for p in problems):
+                problems.append(f"{label}, step {t}: get_action modified the caller's {name} object "
+                                f"(passed {_brief(want)}, afterwards {_brief(got)})")
+        if problems:
+            break
+    return problems, tags
+
+
+def _brief(x) -> str:
+    if isinstance(x, dict):
+        return "{" + ", ".join(f"{k}: {_brief(v)}" for k, v in x.items()) + "}"
+    if isinstance(x, tuple):
+        return "(" + ", ".join(_brief(v) for v in x) + ")"
+    if x is None:
+        return "None"
+    a = np.asarray(x)
+    return (str(a.tolist()) if a.size <= 16 else f"array{a.shape}") + (f":{a.dtype}" if a.dtype.kind in "biu" else "")
+
+
+def gen_reuse(rng: random.Random, tier: str):
+    ag = _agents()
+    cfgs = []
+    for algo in ag.ALGOS:
+        for kind in ag.ACTION_KINDS[algo]:
+            masked = kind != "box" and (algo not in ("MADDPG", "MATD3") or kind == "discrete")
+            dts = list(REUSE_DTYPES) if masked else [rng.choice(REUSE_DTYPES)]
+            if algo == "DQN":
+                # DQN builds `(1 - mask).bool()` on the torch copy of the mask, which torch refuses for a bool tensor:
+                # bool masks are outside what DQN accepts ("1=legal 0=illegal"); noted by run_reuse, not judged
+                dts = [d for d in dts if d != "bool"]
+            reps = 1 if tier == "quick" else 4
+            for rep in range(reps):
+                for i, dt in enumerate(dts):
+                    # (without masks the observation is the aliased input that matters: any family, so that the conversion copies)
+                    fam = "vector" if (tier == "quick" and i % 2 == 0 and masked) else rng.choice(list(ag.OBS_FAMILIES))
+                    if ag.known_broken(algo, fam, kind) or not ag.supported(algo, fam, kind):
+                        fam = "vector"
+                    single = (i + rep) % 4 == 3
+                    cfgs.append({"suite": "reuse", "algo": algo, "kind": kind, "family": fam, "space_seed": rng.randrange(3),
+                                 "seed": rng.randrange(1 << 30), "B": rng.randint(2, 3), "single": single,
+                                 "steps": 3 if tier == "quick" else rng.randint(3, 5), "mask": masked, "mask_dtype": dt,
+                                 "style": "onehot" if (i + rep) % 2 == 0 else "random",
+                                 "training": rng.random() < 0.5, "flip": rng.choice([None, None, 0, 1]),
+                                 "eps": rng.choice([0.0, 0.0, 0.5, 1.0]),
+                                 "env_defined": ag.is_multi_agent(algo) and kind in ("discrete", "box") and rng.random() < 0.5,
+                                 "reuse": list(REUSE_PARTS)})
+    return cfgs
+
+
+def shrink_reuse(cfg):
+    """fewer aliased parts, fewer steps, while the history still fails"""
+    def fails(c):
+        try:
+            return bool(reuse_one(c)[0])
+        except InfraError:
+            raise
+        except Exception:
+            return False
+    cur = dict(cfg)
+    for p in list(cur.get("reuse", REUSE_PARTS)):
+        c = dict(cur, reuse=[x for x in cur["reuse"] if x != p])
+        if c["reuse"] and fails(c):
+            cur = c
+    for steps in range(2, cur["steps"]):
+        c = dict(cur, steps=steps)
+        if fails(c):
+            cur = c
+            break
+    return cur
+
+
+def run_reuse(chk: Check, cfgs, sink=None) -> int:
+    flagged = 0
+    if sink is None and cfgs:
+        try:
+            probe = dqn_agent("vector", 3)
+            probe.actor.table = torch.zeros((1, 3))
+            probe.get_action(sample_obs(probe, "DQN", 1, False, 0), epsilon=0.0, action_mask=np.array([[True, False, True]]))
+        except RuntimeError as e:
+            chk.notes.append(f"reuse: DQN.get_action does not accept a bool action mask ({str(e)[:60]}...); every other "
+                             "algorithm does; DQN histories use int8 / int64 / float32 masks")
+    for cfg in cfgs:
+        try:
+            problems, tags = reuse_one(cfg)
+        except InfraError:
+            raise
+        except Exception as e:
+            problems, tags = [f"{cfg['algo']} {cfg['kind']} obs={cfg['family']} reuse history: raised {type(e).__name__}: {e}"], ["raised"]
+        if sink is None:
+            chk.case({k: v for k, v in cfg.items()}, nontrivial=True, tags=tags + ["suite-reuse"],
+                     sample={"suite": "reuse", **{k: cfg[k] for k in ("algo", "kind", "family", "mask_dtype", "steps", "reuse")}})
+        if problems:
+            flagged += 1
+            if sink is not None:
+                sink.append((cfg, None, problems))
+            elif finding_id(cfg, problems[0]) is not None:
+                fid = finding_id(cfg, problems[0])
+                if first_of_its_kind(chk, cfg, fid):
+                    chk.finding(fid, FINDINGS[fid] + " :: " + problems[0], {"case": cfg, "oracle_problems": problems[:10]})
+            elif first_of_its_kind(chk, cfg, re.sub(r"obs=\w+ mask dtype \w+|, step \d+.*?:", "", problems[0])):
+                small = shrink_reuse(cfg)
+                p2 = reuse_one(small)[0] or problems
+                chk.violation(p2[0], {"case": small, "oracle_problems": p2[:10]})
+    if sink is None:
+        chk.suite("reuse-aliased-inputs", len(cfgs), flagged)
+    return flagged
+
+
 # ============================================================================= check
 def pre_gate(chk: Check) -> None:
     """Regenerate lean/Gen/ActionGen.lean from the source text of the learners of the tree under test (before the Lean
@@ -2342,7 +2720,9 @@ def run(chk: Check) -> None:
                 "1..5 actions; eps in {0,1/2,1}; random draws recorded from the seeded RNG or injected (zeros, ties, u on both "
                 "sides of eps); Box bounds finite, asymmetric, per-dimension; multi-agent per-agent masks and env-defined "
                 "actions through infos; plus a sweep of the real networks over every algorithm x action kind x observation "
-                "family x training flag x single/batched; distinct = distinct case description; non-trivial = a mask with a "
+                "family x training flag x single/batched; plus histories of calls on re-used, in-place rewritten mask / observation / "
+                "infos objects (mask dtypes int8, int64, float32, bool) against the same histories on fresh copies; "
+                "distinct = distinct case description; non-trivial = a mask with a "
                 "masked action, a tie, an exploring row, an env-defined action or a continuous case")
     chk.assumptions = [
         "masks are 0/1 arrays of the action space's shape; q-values / logits are finite (no NaN)",
@@ -2362,7 +2742,7 @@ def run(chk: Check) -> None:
         c = json.loads(f.read_text())
         corpus.append(c.get("replay", c).get("case", c.get("replay", c)))
     sweep_corpus = [c for c in corpus if c.get("suite") == "sweep"]
-    run_cases(chk, "corpus", [c for c in corpus if c.get("suite") not in ("sweep", "history", "plumb")])
+    run_cases(chk, "corpus", [c for c in corpus if c.get("suite") not in ("sweep", "history", "plumb", "reuse")])
     if sweep_corpus:
         run_sweep(chk, sweep_corpus)
     # 2. generated suites
@@ -2376,6 +2756,9 @@ def run(chk: Check) -> None:
     run_sweep(chk, gen_sweep(rng, chk.tier))
     # 4. the same oracle along histories: after clone / mutations of every kind / checkpoint round trips
     run_history(chk, [c for c in corpus if c.get("suite") == "history"] + gen_history(rng, chk.tier))
+    # 5. histories of calls on RE-USED input objects rewritten in place (mask / observation / infos buffers) against the
+    #    same histories with fresh copies, the legality oracle on the current values, and `inputs are not modified`
+    run_reuse(chk, [c for c in corpus if c.get("suite") == "reuse"] + gen_reuse(rng, chk.tier))
     repeats = {k: n for k, n in _SEEN.items() if n > 1}
     if repeats:
         chk.notes.append("failures reported once per (suite, algorithm, kind): " +
@@ -2471,6 +2854,106 @@ def selftest(chk: Check) -> None:
         raise InfraError("C14 self-test: a rescale that uses the wrong bound was not noticed "
                          f"(static: {len(sink)} flagged, through MADDPG/MATD3 eval: {len(sink_b)} flagged)")
     detected.append("rescale with the wrong bound")
+
+    # faults 4-8: the reuse dimension (inputs that are the same objects as on the previous call, rewritten in place)
+    from agilerl.algorithms import dqn_rainbow as rb_mod, cqn as cqn_mod, maddpg as maddpg_mod
+    from agilerl.networks import distributions as dist_mod
+    pool = gen_reuse(rng, "quick") + gen_reuse(rng, "quick")
+
+    def flagged_with(pred, words):
+        sink: list = []
+        run_reuse(chk, [c for c in pool if pred(c)][:6], sink)
+        return any(any(w in p[0] for w in words) for _, _, p in sink)
+
+    # 4: the numpy.ma path keeps a private copy of the mask per source OBJECT
+    o_rb = rb_mod.RainbowDQN.get_action
+
+    def rb_cached(self, obs, action_mask=None, training=True):
+        if action_mask is not None:
+            if getattr(self, "_st_src", None) is not action_mask or self._st_copy.shape != action_mask.shape:
+                self._st_src, self._st_copy = action_mask, np.array(action_mask, copy=True)
+            action_mask = self._st_copy
+        return o_rb(self, obs, action_mask=action_mask, training=training)
+    rb_mod.RainbowDQN.get_action = rb_cached
+    try:
+        ok = flagged_with(lambda c: c["algo"] == "RainbowDQN", ["masked by the CURRENT mask", "differs from the action"])
+    finally:
+        rb_mod.RainbowDQN.get_action = o_rb
+    if not ok:
+        raise InfraError("C14 self-test: a mask copy cached per source object (RainbowDQN) was not noticed by the reuse suite")
+    detected.append("mask cached per source object (numpy.ma path)")
+
+    # 5: the policy-gradient head keeps the converted mask tensor per source object
+    o_am = dist_mod.EvolvableDistribution.apply_mask
+
+    def am_cached(self, logits, mask):
+        c = getattr(self, "_st_cache", None)
+        if c is None or c[0] is not mask or c[1].numel() != logits.numel():
+            c = (mask, torch.as_tensor(mask, dtype=torch.bool, device=self.device).clone())
+            object.__setattr__(self, "_st_cache", c)
+        return o_am(self, logits, c[1])
+    dist_mod.EvolvableDistribution.apply_mask = am_cached
+    try:
+        ok = flagged_with(lambda c: c["algo"] == "PPO" and c["kind"] != "box", ["masked by the CURRENT mask", "differs from the action"])
+    finally:
+        dist_mod.EvolvableDistribution.apply_mask = o_am
+    if not ok:
+        raise InfraError("C14 self-test: a mask tensor cached per source object (PPO head) was not noticed by the reuse suite")
+    detected.append("mask tensor cached per source object (policy-gradient head)")
+
+    # 6: the preprocessed observation is cached per source object
+    o_pre = ddpg_mod.DDPG.preprocess_observation
+
+    def pre_cached(self, observation):
+        c = getattr(self, "_st_obs", None)
+        if c is None or c[0] is not observation:
+            c = (observation, copy.deepcopy(o_pre(self, observation)))     # (a device copy; from_numpy alone shares memory)
+            self._st_obs = c
+        return c[1]
+    own = "preprocess_observation" in ddpg_mod.DDPG.__dict__
+    ddpg_mod.DDPG.preprocess_observation = pre_cached
+    try:
+        ok = flagged_with(lambda c: c["algo"] == "DDPG", ["differs from the action"])
+    finally:
+        if own:
+            ddpg_mod.DDPG.preprocess_observation = o_pre
+        else:
+            del ddpg_mod.DDPG.preprocess_observation
+    if not ok:
+        raise InfraError("C14 self-test: a preprocessed observation cached per source object (DDPG) was not noticed by the reuse suite")
+    detected.append("observation cached per source object")
+
+    # 7: get_action writes into the caller's mask;  8: ... removes the mask entries from the caller's infos
+    o_cq = cqn_mod.CQN.get_action
+
+    def cq_writes(self, obs, epsilon=0, action_mask=None):
+        out = o_cq(self, obs, epsilon=epsilon, action_mask=action_mask)
+        if action_mask is not None:
+            action_mask[...] = 1
+        return out
+    cqn_mod.CQN.get_action = cq_writes
+    try:
+        ok = flagged_with(lambda c: c["algo"] == "CQN", ["modified the caller's action mask"])
+    finally:
+        cqn_mod.CQN.get_action = o_cq
+    if not ok:
+        raise InfraError("C14 self-test: a get_action that overwrites the caller's mask (CQN) was not noticed by the reuse suite")
+    o_md = maddpg_mod.MADDPG.get_action
+
+    def md_pops(self, obs, training=True, infos=None):
+        out = o_md(self, obs, training=training, infos=infos)
+        for ent in (infos or {}).values():
+            if isinstance(ent, dict):
+                ent.pop("action_mask", None)
+        return out
+    maddpg_mod.MADDPG.get_action = md_pops
+    try:
+        ok = flagged_with(lambda c: c["algo"] == "MADDPG" and c["kind"] == "discrete", ["modified the caller's infos"])
+    finally:
+        maddpg_mod.MADDPG.get_action = o_md
+    if not ok:
+        raise InfraError("C14 self-test: a get_action that pops entries of the caller's infos (MADDPG) was not noticed by the reuse suite")
+    detected.append("caller's mask overwritten / infos entries removed")
     chk.corr["suites"].pop("selftest", None)
     chk.notes.append("self-test: detected " + "; ".join(detected))
 
@@ -2484,6 +2967,19 @@ def replay(chk: Check, path: str) -> int:
     if case.get("suite") == "history":
         problems, _, log = history_one(case)
         print(json.dumps({"case": case, "log": log, "oracle_problems": problems[:10]}, indent=1, default=str))
+        if problems:
+            print(f"VIOLATION property=C14 replay={path}")
+            print(f"  -> {problems[0]}"[:600])
+            return 1
+        return 0
+    if case.get("suite") == "reuse":
+        try:
+            problems = reuse_one(case)[0]
+        except InfraError:
+            raise
+        except Exception as e:
+            problems = [f"reuse history raised {type(e).__name__}: {e}"]
+        print(json.dumps({"case": case, "oracle_problems": problems[:10]}, indent=1, default=str))
         if problems:
             print(f"VIOLATION property=C14 replay={path}")
             print(f"  -> {problems[0]}"[:600])
